@@ -68,6 +68,9 @@ pub struct Exec {
 	pub pm_checked: u64,
 	/// background-error state entered: every later commit must be refused
 	pub bg_err: bool,
+	/// a pipeline step failed after taking a commit from the queue: that commit is neither queued nor logged, so
+	/// "every accepted commit is in the log" does not hold although the queue is empty (fault runs)
+	pub commit_lost: bool,
 	/// compare get_num_column_value_entries with the model (multitree columns)
 	pub check_entries: bool,
 	/// accepted transactions in commit order (recorded with the prefix list)
@@ -121,6 +124,7 @@ impl Exec {
 			pm: crate::pm::Pm::default(),
 			pm_checked: 0,
 			bg_err: false,
+			commit_lost: false,
 			check_entries: true,
 			accepted_txs: vec![],
 		};
@@ -148,6 +152,7 @@ impl Exec {
 			pm: crate::pm::Pm::default(),
 			pm_checked: 0,
 			bg_err: false,
+			commit_lost: false,
 			check_entries: true,
 			accepted_txs: vec![],
 		}
@@ -491,7 +496,7 @@ impl Exec {
 	fn check_clause(&self, ci: usize, clause: u8) -> Result<(), Fail> {
 		let db = self.db();
 		let d = self.digest();
-		let queue_empty = d.commit_queue_len == 0;
+		let queue_empty = d.commit_queue_len == 0 && !self.commit_lost;
 		let pending = d.log_overlay_index + d.log_overlay_value + d.log_overlay_ref_count;
 		{
 			let cm = &self.model.cols[ci];
